@@ -65,6 +65,9 @@ func runCaseOf(c map[string]any) runCase {
 		rc.SigK = int(k)
 	}
 	rc.HasSig, _ = c["hassig"].(bool)
+	if h, ok := num(c["held"]); ok {
+		rc.Held = int(h)
+	}
 	return rc
 }
 
